@@ -230,7 +230,21 @@ func hDumpTree(e *Entry, indent string) string {
 	return s
 }
 
-// hDump renders all module trees of a set.
+// hDumpTrees renders the entry trees of all modules of a set (types with their identity
+// value lists included).
+func hDumpTrees(ms *Modules) string {
+	s := ""
+	for _, k := range hModuleNames(ms) {
+		s += "module " + k + "\n"
+		e := ToEntry(ms.Modules[k])
+		for _, n := range hSortedDir(e.Dir) {
+			s += hDumpTree(e.Dir[n], " ")
+		}
+	}
+	return s
+}
+
+// hDump renders all module trees of a set and the identities declared in each module's own text.
 func hDump(ms *Modules) string {
 	s := ""
 	for _, k := range hModuleNames(ms) {
